@@ -253,7 +253,9 @@ def run_c20(ctx):
             rng, spec, params = case_of(ctx.seed + 9, i, profile="core")
             su_h = rng.choice([3, 6, 12, 24])
             pu_h = rng.choice([3, 6, 12, 24])
-            A = sorted(set(rng.choice([0, 1, 2, 4]) for _ in range(rng.randint(0, 2))))
+            A = [rng.choice([0, 1, 2, 4, 30]) for _ in range(rng.randint(0, 3))]   # duplicates and steps beyond the end included
+            if rng.random() < 0.5:
+                A = sorted(set(A))
             subp = build(spec, plain=True)
             subp.unit_timedelta = datetime.timedelta(hours=su_h)
             ok_run = rng.random() < 0.85
